@@ -75,6 +75,7 @@ CONSTANTS
   MaxSd = %d
   GSet = %s
 CONSTRAINT Bound
+VIEW View
 ACTION_CONSTRAINT InOrder
 %s
 INVARIANT TypeOK
@@ -340,11 +341,14 @@ def inflight_at_shutdown(evs):
 
 S2, S1 = ["traces", "metrics"], ["traces"]
 # (name, configuration, coverage)
+COVER = ("cover", mc_cfg(S2, [1], "real", ["gh"], ["same"], 10, 1, 1, 1, [1], ["LifeOrder"]), True)      # every action taken
 DESIGNS_QUICK = [
+    COVER,
     ("life", mc_cfg(S2, [], "real", ["gh", "g"], ["same", "fresh"], 11, 1, 1, 2, [1, 2], ["LifeOrder"]), False),
-    ("serve", mc_cfg(S2, [1, 2], "real", ["gh"], ["same"], 16, 0, 0, 2, [1], ["ServeOrder"]), False),
+    ("serve", mc_cfg(S2, [1, 2], "real", ["gh"], ["same"], 13, 0, 0, 2, [1], ["ServeOrder"]), False),
 ]
 DESIGNS_THOROUGH = [
+    COVER,
     ("life", mc_cfg(S2, [], "real", ["gh", "g", "h"], ["same", "fresh"], 13, 2, 1, 3, [1, 2], ["LifeOrder"]), False),
     ("serve", mc_cfg(S2, [1, 2], "real", ["gh", "g", "h"], ["same"], 19, 0, 0, 2, [1], ["ServeOrder"]), False),
     ("restart", mc_cfg(S1, [1, 2], "real", ["gh"], ["same", "fresh"], 18, 1, 0, 2, [1, 2], ["ServeOrder"]), False),
